@@ -121,6 +121,14 @@ Definition fd_step_stale (s : fdst) (e : ev) : option fdst :=
   match e with
   | EOut ("sys", [ASym "epctl"; ASym "del"; AInt fd; _; _]) =>
       Some (mkFd0 (f_owned s) (f_static s) (Some ("epctl", fd)) (f_dead s))
+  | EOut ("g", [ASym "staleudp"; AInt _; _]) =>
+      (* second recorded finding: AsyncWrite on a closed connected-UDP connection; the send that follows is exempt *)
+      Some (mkFd0 (f_owned s) (f_static s) (Some ("staleudp", 0)) (f_dead s))
+  | EOut ("sys", [ASym "sendto"; AInt fd; _; _]) =>
+      match f_last s with
+      | Some (nm, _) => if sym_eqb nm "staleudp" then Some (mkFd0 (f_owned s) (f_static s) (Some ("sendto", fd)) (f_dead s)) else fd_step s e
+      | None => fd_step s e
+      end
   | _ => fd_step s e
   end.
 
@@ -213,14 +221,16 @@ Definition outbound_ok (t : list ev) : bool := check out_step (mkOut [] []) t.
    is carried over (the identity never gets another callback); a Write in the callback
    is one sendto of exactly those bytes. *)
 
-Record udpst := mkU {
+Record udpst := mkU0 {
   u_pending : option (list Z * list arg);   (* datagram just received: payload, source *)
   u_cur : option (Z * list Z);              (* callback in progress: cid, unread payload *)
   u_seen : list Z;                          (* identities already used *)
   u_want_send : option (list Z);            (* a write call whose sendto must follow *)
+  u_depth : nat;                            (* callbacks of other connections nested in the datagram callback *)
 }.
+Definition mkU p c sn ws : udpst := mkU0 p c sn ws O.
 
-Definition udp_step (listeners : list Z) (s : udpst) (e : ev) : option udpst :=
+Definition udp_step0 (listeners : list Z) (s : udpst) (e : ev) : option udpst :=
   match e with
   | EIn ("r", ASym "recvfrom" :: AInt n :: ABytes d :: src) =>
       if 0 <=? n then Some (mkU (Some (d, src)) (u_cur s) (u_seen s) None) else Some s
@@ -272,6 +282,18 @@ Definition udp_step (listeners : list Z) (s : udpst) (e : ev) : option udpst :=
       | None => Some (mkU (u_pending s) None (u_seen s) None)
       end
   | _ => Some s
+  end.
+
+(* callbacks of OTHER connections can nest inside a datagram callback (the handler closes a
+   stream connection, whose OnClose runs at once): their lines are not the datagram's *)
+Definition udp_step (listeners : list Z) (s : udpst) (e : ev) : option udpst :=
+  match u_cur s, u_depth s, e with
+  | Some _, O, EOut ("cb", _) =>
+      Some (mkU0 (u_pending s) (u_cur s) (u_seen s) (u_want_send s) 1)
+  | Some _, S d, EOut ("cb", _) => Some (mkU0 (u_pending s) (u_cur s) (u_seen s) (u_want_send s) (S (S d)))
+  | Some _, S d, EIn ("hret", _) => Some (mkU0 (u_pending s) (u_cur s) (u_seen s) (u_want_send s) d)
+  | Some _, S d, _ => Some s
+  | _, _, _ => udp_step0 listeners s e
   end.
 
 Definition udp_ok (listeners : list Z) (t : list ev) : bool :=
@@ -338,7 +360,7 @@ Definition fault_ok (t : list ev) : bool := check fault_step (mkF false false []
 Definition run_history (i : list line) : option (list ev) :=
   match init_world i with
   | None => None
-  | Some w => Some (rev (log (polling (S (List.length i)) w)))
+  | Some w => Some (rev (log (polling (init_fuel i) w)))
   end.
 
 Definition statics (i : list line) : list Z :=
